@@ -304,8 +304,21 @@ fn gtk(args: &[&str]) -> Option<String> {
         let q = hex_q();
         let gh = (g * h).to_slice();
         let limbs_ok = (0..12).all(|i| gh[32 * i..32 * i + 32] < q[..]);
+        // identities with a history: the inverse of a computed identity and of `one` itself is `one`, by `==` and by
+        // encoding, and is neutral afterwards
+        let idh = match g.inverse() {
+            Some(i) => {
+                let e = i * g;
+                match (e.inverse(), one.inverse()) {
+                    (Some(ei), Some(oi)) => s_bool(ei == one && oi == one && ei.to_slice() == one.to_slice() && oi.to_slice() == one.to_slice()
+                        && g * ei == g && (ei == e) == (ei.to_slice() == e.to_slice())),
+                    _ => "NONE".into(),
+                }
+            }
+            None => "NONE".into(),
+        };
         Some(format!(
-            "{}|{}|{}|{}|{}|{}|{}|{}|{}|{}|{}|{}",
+            "{}|{}|{}|{}|{}|{}|{}|{}|{}|{}|{}|{}|{}",
             hex(&gh),
             s_bool(g * h == h * g),
             s_bool(g * one == g),
@@ -317,7 +330,8 @@ fn gtk(args: &[&str]) -> Option<String> {
             s_bool(g.pow(Fr::zero()) == one),
             s_bool(g.pow(Fr::one()) == g),
             s_bool((g == h) == (g.to_slice() == h.to_slice())),
-            s_bool(limbs_ok)
+            s_bool(limbs_ok),
+            idh
         ))
     } else {
         None
